@@ -911,6 +911,9 @@ def b_dict(ip, st, *args, **kwargs):
             return dict(*args, **kwargs)
         except Exception as ex:  # noqa: BLE001
             _raise(type(ex), str(ex))
+    r = ip.task.call_real(ip, st, dict, list(args), kwargs)  # a contract's own model of dict(<its model value>)
+    if r is not NotImplemented:
+        return r
     raise Unsupported("call of 'dict' with symbolic arguments")
 
 
